@@ -2,6 +2,7 @@
 Nothing in /repo is annotated; the generator reads the real AST on every run."""
 from pyvc.ty import *
 from .tad_spec import *
+from . import rdfs_spec  # cardinality lemmas (L_pigeon, L_subset_card) used by the termination argument of prune_states
 
 NODE = REF('Node')
 FIELDS = {
@@ -362,6 +363,26 @@ PS_I1 = (f"forall(a, 0, len({SL_}), {SL_}[a].next_states == old({SL_}[a].next_st
          f" or (cls({SL_}[a]) != 1 and len({SL_}[a].next_states) == 0 and not F0[a]))")
 PS_COMMON = [PS_I1, OLD_LISTS_SAME, "alloc_l() >= old(alloc_l())", OTHER_OBJS_SAME] + VALID(SL_) + HEAPWF(SL_) + [PROBS_POS_S, SUM1_S]
 IN_REACH = lambda x: f"exists(m, 0, len(reachable_states), reachable_states[m] == {x})"
+# termination of `while not finished` (C06): the list of unreachable states only grows (as a set) from one round to the next,
+# because clearing transitions can only shrink the set of targets; it is strictly ascending, hence duplicate-free, and lies in
+# [0, n), so its length is bounded by n (pigeonhole, L_pigeon) and grows strictly whenever the loop continues (L_subset_card)
+NRS = "not_reachable_states"
+NEWL = "not_reachable_states_new"
+NSL = f"len({SL_})"
+ASC = lambda L: f"forall(a, 0, len({L}), forall(b, 0, len({L}), implies(a < b, {L}[a] < {L}[b])))"
+NO_EDGE_TO = lambda x: f"forall(p, 0, {NSL}, forall(k, 0, len({SL_}[p].next_states), {SL_}[p].next_states[k][1] != {x}))"
+P1_EMPTY = lambda L: f"forall(w, 0, len({L}), implies(cls({SL_}[{L}[w]]) == 1, len({SL_}[{L}[w]].next_states) == 0))"
+PS_T0 = [ASC(NRS), f"forall(w, 0, len({NRS}), 0 <= {NRS}[w] and {NRS}[w] < {NSL})",
+         f"forall(w, 0, len({NRS}), {NRS}[w] != 0 and {NO_EDGE_TO(f'{NRS}[w]')})", P1_EMPTY(NRS)]
+R_CONV1 = (f"forall(w, 0, len(reachable_states), reachable_states[w] == 0 or exists(a, 0, _i1, exists(k, 0, len({SL_}[a].next_states),"
+           f" {SL_}[a].next_states[k][1] == reachable_states[w])))")
+R_CONV2 = (f"forall(w, 0, len(reachable_states), reachable_states[w] == 0 or exists(a, 0, _i1, exists(k, 0, len({SL_}[a].next_states),"
+           f" {SL_}[a].next_states[k][1] == reachable_states[w])) or exists(k, 0, _i2, state.next_states[k][1] == reachable_states[w]))")
+PS_T3 = [ASC(NEWL), f"forall(w, 0, len({NEWL}), 0 <= {NEWL}[w] and {NEWL}[w] < _i3)",
+         f"forall(w, 0, len({NRS}), implies({NRS}[w] < _i3, exists(j, 0, len({NEWL}), {NEWL}[j] == {NRS}[w])))",
+         f"forall(w, 0, len({NRS}), not {IN_REACH(f'{NRS}[w]')})", P1_EMPTY(NRS),
+         f"forall(a, 0, {NSL}, forall(k, 0, len({SL_}[a].next_states), {IN_REACH(f'{SL_}[a].next_states[k][1]')}))",
+         f"forall(j, 0, len({NEWL}), not {IN_REACH(f'{NEWL}[j]')})", P1_EMPTY(NEWL)]
 contract('Solver.prune_states', heap=SOLVER_HEAP,
          params={'self': REF('Solver'), 'F0': AB}, ghost_params={'F0': 'F0'},
          locals={'finished': BOOL, 'not_reachable_states': LIST(INT), 'reachable_states': LIST(INT), 'not_reachable_states_new': LIST(INT),
@@ -369,14 +390,19 @@ contract('Solver.prune_states', heap=SOLVER_HEAP,
          requires=VALID(SL_) + HEAPWF(SL_) + [F0_INV, f"len({SL_}) >= 1", PROBS_POS_S, SUM1_S],
          ensures=[PS_I1] + VALID(SL_) + HEAPWF(SL_) + [PROBS_POS_S, SUM1_S],
          modifies={'next_states': [f"exists(p, 0, len({SL_}), {SL_}[p] == _o)"], '__lists__': []}, allocates=True,
-         loops={0: dict(inv=PS_COMMON),
+         loops={0: dict(inv=PS_COMMON + PS_T0,
+                        hint_pre=[f"len({NRS}) <= {NSL}"], use_hint_pre={0: [f"L_pigeon({NRS}, len({NRS}), {NSL})"]},
+                        ghost_decl=[('nrs0', LIST(INT))], ghost_mod=[('nrs0', LIST(INT))], ghost_pre=[('nrs0', LIST(INT), NRS)],
+                        decreases=[f"{NSL} - len({NRS})"],
+                        use_variant=[f"L_subset_card(nrs0, len(nrs0), {NRS}, len({NRS}), {NSL})"]),
                 1: dict(inv=["len(reachable_states) >= 1", "reachable_states[0] == 0",
-                             f"forall(a, 0, _i1, forall(k, 0, len({SL_}[a].next_states), {IN_REACH(f'{SL_}[a].next_states[k][1]')}))"]),
+                             f"forall(a, 0, _i1, forall(k, 0, len({SL_}[a].next_states), {IN_REACH(f'{SL_}[a].next_states[k][1]')}))", R_CONV1]),
                 2: dict(inv=["len(reachable_states) >= 1", "reachable_states[0] == 0",
                              f"forall(a, 0, _i1, forall(k, 0, len({SL_}[a].next_states), {IN_REACH(f'{SL_}[a].next_states[k][1]')}))",
-                             f"forall(k, 0, _i2, {IN_REACH('state.next_states[k][1]')})"]),
+                             f"forall(k, 0, _i2, {IN_REACH('state.next_states[k][1]')})", R_CONV2]),
                 3: dict(inv=PS_COMMON + [IN_REACH('0'),
-                                         f"forall(a, 0, len({SL_}), implies({SL_}[a].next_states == old({SL_}[a].next_states), forall(k, 0, len({OLDNSOF('a')}), {IN_REACH(f'tgt({OLDNSOF(chr(97))}[k])')})))"],
+                                         f"forall(a, 0, len({SL_}), implies({SL_}[a].next_states == old({SL_}[a].next_states), forall(k, 0, len({OLDNSOF('a')}), {IN_REACH(f'tgt({OLDNSOF(chr(97))}[k])')})))"]
+                        + PS_T3,
                         hint_pre=[f"forall(p, 0, len({SL_}), forall(p2, 0, len({SL_}), implies(p != p2, {SL_}[p] != {SL_}[p2])))"])},
          props=['C03', 'C02', 'C06', 'C10', 'C13', 'C14'])
 
